@@ -155,6 +155,9 @@ def _l2_traces(ctx, prop, histories=None):
         if prop in ('C01', 'C03', 'C04', 'C08'):
             histories += [mcm.gen_servers(mcm.SCENARIOS['base'], rng, rng.choice([5, 8, 12]))
                           for _ in range(n // 2)]
+        if prop in ('C03', 'C06'):
+            histories += [mcm.gen_allocs(mcm.SCENARIOS['base'], rng, rng.choice([2, 4, 6]))
+                          for _ in range(n // 2)]
         if prop == 'C05':
             histories += [mcm.gen_identity(mcm.SCENARIOS['base'], rng, rng.choice([4, 6, 9]))
                           for _ in range(n // 2)]
